@@ -194,3 +194,49 @@ func guardEqs(n *sx, intSk map[string]bool) *sx {
 	}
 	return n
 }
+
+// flattenFact splits an assumed fact into conjuncts, pushing implications inwards:
+// (and A B) → A, B;  (=> g (and A B)) → (=> g A), (=> g B);  (=> g (=> h A)) → (=> (and g h) A).
+func flattenFact(phi string) []string {
+	if len(phi) > 200000 {
+		return []string{phi}
+	}
+	n, ok := parseSx(phi)
+	if !ok {
+		return []string{phi}
+	}
+	var out []string
+	var walk func(guards []*sx, n *sx)
+	walk = func(guards []*sx, n *sx) {
+		switch {
+		case n.list != nil && len(n.list) >= 2 && n.list[0].list == nil && n.list[0].atom == "and":
+			for _, c := range n.list[1:] {
+				walk(guards, c)
+			}
+			return
+		case n.isCall("=>", 3):
+			walk(append(append([]*sx{}, guards...), n.list[1]), n.list[2])
+			return
+		}
+		if n.list == nil && n.atom == "true" {
+			return
+		}
+		switch len(guards) {
+		case 0:
+			out = append(out, n.String())
+		case 1:
+			out = append(out, "(=> "+guards[0].String()+" "+n.String()+")")
+		default:
+			var gs []string
+			for _, g := range guards {
+				gs = append(gs, g.String())
+			}
+			out = append(out, "(=> (and "+strings.Join(gs, " ")+") "+n.String()+")")
+		}
+	}
+	walk(nil, n)
+	if len(out) == 0 {
+		return nil
+	}
+	return out
+}
